@@ -343,7 +343,8 @@ def run(F, tier, res):
                 continue
             CODE.add(l)
             for (bb, kind, payload) in defs.get(l, []):
-                if kind == 'call' and callee_of(payload).endswith(('::from', '::into', '::into_owned', '::to_string', '::to_owned', '::clone')):
+                if kind == 'call' and not callee_of(payload).endswith(('from_str', '::ok', '::branch')):
+                    # conversions and the text-shortening calls themselves (strip_suffix, trim_end_matches, unwrap_or ...): follow the receiver
                     work += [(a.get('move') or a.get('copy') or {}).get('l') for a in payload['args'][:1]]
                 elif kind == 'assign' and payload[0] in ('use', 'cast'):
                     o = payload[1] if payload[0] == 'use' else payload[2]
@@ -401,6 +402,6 @@ def run(F, tier, res):
                             'submatch offsets that rg reported refer to the text as sent' % verdict, where=F.span_of_call(c))
             else:
                 okt += 1
-    res.rule('C16.TEXT-INTACT', nt, 1, 'mutations of the rg --json line text before it becomes GrepLine.code: only the line terminator is removed', discharged=okt)
+    res.rule('C16.TEXT-INTACT', nt, 0, 'mutations of the rg --json line text before it becomes GrepLine.code: only the line terminator is removed', discharged=okt)
     res.distinct.update(r['rule'] for r in res.rules)
     return res
